@@ -149,14 +149,18 @@ def cases(tier, seed):
             for NE in ((3, 5) if q else (3, 4, 5, 7)):
                 if kind.startswith("sym") and int(kind[3:]) >= NE:
                     continue
-                for trailing, pos in (((), 0), ((2,), 0), ((2,), 1), ((2, 3), 1)):
-                    if q and len(trailing) == 2 and NE > 3:
+                for trailing, pos in (((), 0), ((2,), 0), ((2,), 1), ((2, 3), 1), ((2, 3), 2), ((3, 2, 2), 2), ((2, 3, 2), 3)):
+                    if q and len(trailing) >= 2 and NE > 3:
+                        continue
+                    if len(trailing) == 3 and kind not in ("G", "sym1"):
                         continue
                     out.append(Case(f"single {kind} NE={NE} dE={dE} smear={smear} trailing={trailing} axis={pos}", case_single,
                                     dict(kind=kind, NE=NE, dE=dE, smear=sm_par, trailing=trailing, axis_pos=pos)))
         for kinds in (["G"], ["sym1"], ["G", "G"], ["sym1", "sym1"], ["G", "void"], ["void", "sym1"], ["FD", "G"]) + (() if q else (["G", "G", "G"], ["sym1", "void", "sym1"])):
             for rank in ((0, 1) if q else (0, 1, 2)):
                 NEs = [3, 4, 3][:len(kinds)] if q else [4, 5, 3][:len(kinds)]
+                if q and len(kinds) > 2 and rank > 0:
+                    continue
                 if rank == 2 and len(kinds) > 2:
                     continue
                 out.append(Case(f"result {kinds} NEs={NEs} rank={rank} dE={dE}", case_result,
